@@ -308,6 +308,16 @@ def sample_classes(ctx):
               f"dataclass fields {fields} are not exactly the exported private keys {pk} (each `self.<key>`) plus the fields rebuilt from the shared dict {rebuilt}")
     # shared dict: keys1/keys2/vals <-> zip(keys1, keys2) -> vals ; no narrowing
     sf = ctx.fn(f"{cq}.shared_parameters_dict")
+    # the export is computed from the fields as they are at the time of the call: a sample shares its lookup table with whoever built it
+    # (get_model_state hands out the model's own dict), so an export kept on the sample goes stale when the table grows
+    kept = [U(t) for n in walk_own(sf.node) if isinstance(n, (ast.Assign, ast.AugAssign, ast.AnnAssign)) for t in (n.targets if isinstance(n, ast.Assign) else [n.target])
+            if isinstance(t, (ast.Attribute, ast.Subscript)) and U(t).startswith(("self.", "self["))]
+    kept += [U(c)[:50] for c in calls(sf.node) if U(c.func) in ("setattr", "object.__setattr__") or (isinstance(c.func, ast.Attribute) and U(c.func.value) == "self.__dict__")]
+    kept += [U(d) for d in sf.node.decorator_list if U(d.func if isinstance(d, ast.Call) else d) in ("cached_property", "functools.cached_property", "lru_cache", "functools.lru_cache", "cache", "functools.cache")]
+    if kept:
+        ctx.bad("R1", f"{sf.site()}::computed-on-every-call", f"the shared export is kept on the sample ({kept[:3]}): the lookup table it is computed from is a mutable dict the sample "
+                f"shares with the live model, so a second save after the table has grown writes the stale arrays - the reloaded sample is not the saved one")
+        return
     senv = single_defs(sf.node)
     sr = returns(sf.node)
     sd = inline(sr[0].value, {k: v for k, v in senv.items() if isinstance(v, ast.Dict)}) if len(sr) == 1 else None
@@ -456,6 +466,22 @@ def lookup_reader(fd, sp, fenv):
                 src = dict(zip(names, [key_of(a) for a in z.args]))
                 if isinstance(n.key, ast.Tuple) and len(n.key.elts) == 2 and all(isinstance(x, ast.Name) for x in n.key.elts) and isinstance(n.value, ast.Name):
                     r = (src.get(n.key.elts[0].id), src.get(n.key.elts[1].id), src.get(n.value.id))
+                    if None not in r:
+                        return r
+    # the same table filled by a loop: D = {}; for a, b, v in zip(shared[A], shared[B], shared[C]): D[a, b] = v
+    for lp in [n for n in walk_own(fd.node) if isinstance(n, ast.For) and not n.orelse]:
+        z = inline(lp.iter, fenv)
+        if isinstance(z, ast.Call) and U(z.func) == "zip" and len(z.args) == 3 and isinstance(lp.target, ast.Tuple) and len(lp.target.elts) == 3 \
+                and all(isinstance(x, ast.Name) for x in lp.target.elts) and len(lp.body) == 1 and isinstance(lp.body[0], ast.Assign) and len(lp.body[0].targets) == 1:
+            st_ = lp.body[0]
+            t_ = st_.targets[0]
+            names = [x.id for x in lp.target.elts]
+            src = dict(zip(names, [key_of(a) for a in z.args]))
+            if isinstance(t_, ast.Subscript) and isinstance(t_.value, ast.Name) and isinstance(t_.slice, ast.Tuple) and len(t_.slice.elts) == 2 \
+                    and all(isinstance(x, ast.Name) for x in t_.slice.elts) and isinstance(st_.value, ast.Name):
+                init_ = [n for n in walk_own(fd.node) if isinstance(n, ast.Assign) and len(n.targets) == 1 and U(n.targets[0]) == t_.value.id]
+                if len(init_) == 1 and isinstance(init_[0].value, ast.Dict) and not init_[0].value.keys:
+                    r = (src.get(t_.slice.elts[0].id), src.get(t_.slice.elts[1].id), src.get(st_.value.id))
                     if None not in r:
                         return r
     return None
